@@ -12,6 +12,7 @@ trailing inputs must be the same array (as float32)."""
 
 import copy
 import itertools
+import re
 import struct
 
 from mc import core
@@ -138,7 +139,13 @@ def check_case(case):
     dis, outcome = _check_case(case)
     if case.get('reuse'):
         # a defect that needs one object used twice gets kinds of its own
-        dis = [('reuse-' + d[0],) + tuple(d[1:]) for d in dis]
+        out, seen = [], set()
+        for d in dis:
+            k = 'reuse-' + re.sub(r'-shape\w+$', '', d[0])
+            if k not in seen:
+                seen.add(k)
+                out.append((k,) + tuple(d[1:]))
+        dis = out
     return dis, outcome
 
 
@@ -150,6 +157,8 @@ def _check_case(case):
     prefix = 'encode' if case['f'] == 'env' else f"ctor-{case['name']}"
     outcome = {}
     reuse = case.get('reuse')
+    if reuse:
+        prefix = 'array'     # kinds 'reuse-array-<slot>', not per constructor
 
     # -- 1. construction + server array (reuse: the SAME object also
     #       produces its IEnvGen layout before / in between)
